@@ -51,6 +51,12 @@ def gen(seed: int, tier: str) -> dict[str, Any]:
             sc["ack_lat"] = rng.choice([None, 0.001, 0.5, 2.999, 3.001])
             sc["resp_lat"] = rng.choice([None, 0.002, 1.0, 5.999, 6.001])
             sc["dup_gap"] = rng.choice([0.0, 0.0, 0.001, 0.5, 0.5, 1.5])
+            if rng.random() < 0.3:
+                # behaviour changing from request to request: e.g. an answer that overtakes a wrongly numbered T_ACK, and
+                # the device repeating that answer in front of its next one
+                sc["per_request"] = [rng.choice([None, None, {"ack": "wrong", "respond": "before_ack"}, {"ack": "none", "respond": "before_ack"},
+                                                 {"respond": "prev+normal"}, {"respond": "prev+normal", "ack": "normal"},
+                                                 {"ack": "dup"}, {"respond": "wrong_type"}]) for _ in range(6)]
         devs.append({"script": sc, "lat": rng.choice([0.005, 0.02, 0.2])})
     n_req = rng.choice([1, 2, 4, 18]) if rng.random() < 0.9 else 36
     ops = []
@@ -187,22 +193,41 @@ def run(plan: dict[str, Any]) -> dict[str, Any]:
                 R.violate("C43.expected-response", f"returned-{r['resp_type']}-for-{r['kind']}", "response of another type returned")
             if r["resp_src"] != DEV[r["d"]]:
                 R.violate("C43.expected-response", "response-from-other-device", f"{r['resp_src']:04x}")
-    # a returned response carries the expected number: numbered data is accepted in order from 0, each request takes at
-    # most one frame, and only a failed request leaves open whether it took one
+    # a returned response carries the expected number.  Exact reference (the transport layer's receive side): per connection the
+    # expected number starts at 0; while a request is pending - from the hand-off of its data frame to its return - the
+    # first data frame of that peer carrying the expected number is taken (whatever becomes of the request afterwards) and
+    # the expected number advances; every other data frame is dropped.  A request that returns a response returns that frame.
+    def _is_data_handoff(e, dev_ia):
+        if e[3] != "handoff":
+            return False
+        c = W.parse_cemi_ldata(bytes.fromhex(e[5]))
+        return bool(c and not c["group"] and c["dst"] == dev_ia and c["tpdu"] and (c["tpdu"][0] & 0xC0) == 0x40)
+
     for di in sorted({r["d"] for r in results}):
-        oks = 0
-        failed = 0
+        expected_no = 0
+        frames = [(n, tg) for (n, tg) in seen_in if tg.source_address.raw == DEV[di]
+                  and type(tg.tpci).__name__ == "TDataConnected"]
+        odd = [n for (n, tg) in seen_in if tg.source_address.raw == DEV[di]
+               and type(tg.tpci).__name__ not in ("TDataConnected", "TAck", "TNak", "TDisconnect")]
         for r in [x for x in results if x["d"] == di and x["kind"] != "connect"]:
+            if any(n < r["n_ret"] for n in odd):
+                # the connected peer sent a T_Connect / unnumbered frame inside the connection: outside the statement's frame
+                # classes, and what it does to the numbering is unspecified - numbers are not judged from here on
+                R.probes["numbering_unjudged_after_unnumbered_frame_of_connected_peer"] += 1
+                break
+            sent_n = next((e[0] for e in ev if r["n_call"] < e[0] < r["n_ret"] and _is_data_handoff(e, DEV[di])), None)
+            taken = None
+            if sent_n is not None:
+                taken = next(((n, tg) for (n, tg) in frames if sent_n < n < r["n_ret"]
+                              and tg.tpci.sequence_number == expected_no), None)
             if r["out"] == "ok":
-                allowed = {(oks + j) & 0xF for j in range(min(failed, 15) + 1)}
-                if r["resp_seq"] not in allowed:
+                if r["resp_seq"] != expected_no or taken is None or taken[1] is not r["resp"]:
                     R.violate("C43.expected-response", "response-number-not-expected",
-                              f"dev{di}: request #{oks + failed} returned a frame numbered {r['resp_seq']}; after {oks} answered and "
-                              f"{failed} failed requests the expected number is in {sorted(allowed)}")
+                              f"dev{di}: a request returned a frame numbered {r['resp_seq']}; the expected number then was "
+                              f"{expected_no} (reference takes {'frame #%d' % taken[0] if taken else 'no frame'})")
                     break
-                oks += 1
-            else:
-                failed += 1
+            if taken is not None:
+                expected_no = (expected_no + 1) & 0xF
     # each delivered frame satisfies at most one request
     objs = [id(r["resp"]) for r in results if r.get("out") == "ok"]
     # (object identity is per delivered frame: the same telegram object must not be returned twice)
